@@ -524,6 +524,14 @@ pub fn judge_x(
             "panic",
         ),
         Ok((s, res, after, reads)) => {
+            // C11: a stack read that failed while the step reports success. The only read a rule
+            // may lose silently is x86-64's restore of rbp from a slot *below* the stack pointer in
+            // the first frame (already-popped register in an epilogue; documented in exec).
+            if res.is_ok() {
+                if let Some((a, _)) = reads.iter().find(|(a, failed)| *failed && !(c.first && *a < c.regs.sp())) {
+                    fail(&["C11"], "unreadable-slot-swallowed", format!("the read of {a:#x} failed, yet the step did not end with Err(CouldNotReadStack)"), s);
+                }
+            }
             match res {
                 Ok(Some(ra)) => {
                     if *ra == 0 {
@@ -606,6 +614,12 @@ pub fn judge_a(
             "panic",
         ),
         Ok((s, res, after, reads)) => {
+            // C11: no aarch64 rule may lose a failed stack read
+            if res.is_ok() {
+                if let Some((a, _)) = reads.iter().find(|(_, failed)| *failed) {
+                    fail(&["C11"], "unreadable-slot-swallowed", format!("the read of {a:#x} failed, yet the step did not end with Err(CouldNotReadStack)"), s);
+                }
+            }
             if after.lr & !c.regs.mask != 0 {
                 fail(&["C16"], "lr-unstripped", "lr left in the register set has bits outside the mask".into(), s);
             }
